@@ -6,6 +6,13 @@
 //!   pssm rows are the K cells as 8-digit hex bit patterns (no separator), `-` = no rows;
 //!   wrap=m calls `configure(&pssm)`, wrap=<k> calls `configure_wrap(k)`; several steps on the
 //!   same striped sequence are joined by `+` (wrap=2+m: configure_wrap(2), then configure(&pssm)).
+//!   optional `src=` says how the StripedSequence is built (default: Stripe::stripe / to_striped):
+//!     src=new.<extra>.<letters>  StripedSequence::new(matrix, L) on a matrix of ceil(L/C)+extra rows whose cell
+//!                                of linear index i (row i % R, column i / R) is seq[i] for i < L and
+//!                                letters[(i - L) % len] otherwise (padding that is NOT the wildcard)
+//!     src=sample.<seed>          StripedSequence::sample(StdRng::seed_from_u64(seed), Background::uniform(), L)
+//!                                (`seq=-`; the sequence is whatever was drawn: every cell, padding included)
+//!   for both the observation starts with lq=<letters>: Index<usize> of the striped sequence at 0 .. L-1
 //! `score run` reads input lines and appends ` => <observation>`; the observation is a
 //!   list of space-separated `key=value` tokens:
 //!     sq=<len>/<wrap>/<row,row,..>     the striped matrix built by the library ('a'+symbol)
@@ -86,6 +93,16 @@ struct Case {
     pos: Vec<usize>,
     idx: Vec<usize>,
     itops: String,
+    src: Src,
+    len: usize,
+}
+
+/// how the striped sequence of a case is built
+#[derive(Clone, Debug)]
+enum Src {
+    Stripe,
+    New(usize, String),
+    Sample(u64),
 }
 
 fn parse_case(line: &str) -> (String, Case) {
@@ -136,6 +153,18 @@ fn parse_case(line: &str) -> (String, Case) {
         pos: list(&f["pos"]),
         idx: list(&f["idx"]),
         itops: f.get("it").cloned().filter(|x| x != "-").unwrap_or_default(),
+        src: match f.get("src").map(|s| s.as_str()) {
+            None | Some("stripe") => Src::Stripe,
+            Some(s) => {
+                let p: Vec<&str> = s.split('.').collect();
+                match p[0] {
+                    "new" => Src::New(p[1].parse().unwrap(), p[2].to_string()),
+                    "sample" => Src::Sample(p[1].parse().unwrap()),
+                    _ => panic!("unknown src"),
+                }
+            }
+        },
+        len: f.get("L").and_then(|x| x.parse().ok()).unwrap_or(0),
     };
     (id, case)
 }
@@ -555,7 +584,33 @@ fn run_cols<A: Alphabet, C: Cols<A>>(case: &Case) -> String {
     let pssm = make_pssm::<A>(&case.pssm, case.pad);
 
     let enc = EncodedSequence::<A>::encode(&case.seq).expect("generated sequences are valid");
-    let mut striped: StripedSequence<A, C> = C::stripe(&enc);
+    let mut striped: StripedSequence<A, C> = match &case.src {
+        Src::Stripe => C::stripe(&enc),
+        // any matrix with rows * C >= L is accepted: more rows than needed, padding that is not the wildcard
+        Src::New(extra, letters) => {
+            let syms: &[A::Symbol] = enc.as_ref();
+            let l = syms.len();
+            let pad = EncodedSequence::<A>::encode(letters).expect("generated padding is valid");
+            let pad: &[A::Symbol] = pad.as_ref();
+            let rows = (l + C::USIZE - 1) / C::USIZE + extra;
+            let mut data = DenseMatrix::<A::Symbol, C>::new(rows);
+            for i in 0..rows * C::USIZE {
+                data[i % rows][i / rows] = if i < l { syms[i] } else { pad[(i - l) % pad.len()] };
+            }
+            StripedSequence::new(data, l).expect("rows * C >= L")
+        }
+        Src::Sample(seed) => {
+            use rand::SeedableRng;
+            StripedSequence::<A, C>::sample(rand::rngs::StdRng::seed_from_u64(*seed), Background::uniform(), case.len)
+        }
+    };
+    let lq: Option<String> = match &case.src {
+        Src::Stripe => None,
+        _ => Some(
+            no_panic(|| (0..striped.len()).map(|i| (b'a' + striped[i].as_index() as u8) as char).collect::<String>())
+                .unwrap_or_else(|| "P".to_string()),
+        ),
+    };
     // one or more configuration steps on the same striped sequence (a sequence scanned
     // with several motifs is re-configured without being re-striped)
     for step in case.wrap.iter() {
@@ -566,6 +621,9 @@ fn run_cols<A: Alphabet, C: Cols<A>>(case: &Case) -> String {
     }
 
     let mut out: Vec<String> = vec![];
+    if let Some(lq) = lq {
+        out.push(format!("lq={}", if lq.is_empty() { "-".to_string() } else { lq }));
+    }
     {
         let m = striped.matrix();
         let mut s = format!("sq={}/{}/", striped.len(), striped.wrap());
@@ -1014,7 +1072,27 @@ fn gen_case(rng: &mut Rng, id: usize, tier: &str) -> String {
         l = (c as i64) * rng.range(7, 40) + rng.range(-1, 1);
     }
     let l = l.max(0) as usize;
-    let r = (l + c - 1) / c;
+    // how the striped sequence is built: 12 % StripedSequence::new on a hand-made matrix (0, 1, 2 or 5 rows more
+    // than needed; padding letters that are mostly NOT the wildcard), 8 % StripedSequence::sample
+    let src_sel = rng.below(100);
+    let src_seed = rng.next() % 1_000_000_007;
+    let extra = *rng.pick(&[0usize, 0, 0, 1, 1, 2, 5]);
+    let pat_len = 1 + rng.below(7) as usize;
+    let pat_wild = rng.chance(15, 100);
+    let pat: String = (0..pat_len)
+        .map(|_| {
+            let s = if pat_wild && rng.chance(1, 3) { k - 1 } else { rng.below(k as u64 - 1) as usize };
+            alpha.as_bytes()[s] as char
+        })
+        .collect();
+    let src: String = if src_sel < 12 {
+        format!("new.{}.{}", extra, pat)
+    } else if src_sel < 20 {
+        format!("sample.{}", src_seed)
+    } else {
+        "stripe".to_string()
+    };
+    let r = (l + c - 1) / c + if src_sel < 12 { extra } else { 0 };
 
     // scoring matrix
     let style = match rng.below(100) {
@@ -1170,8 +1248,9 @@ fn gen_case(rng: &mut Rng, id: usize, tier: &str) -> String {
     };
     let itops: String = (0..nops).map(|_| if rng.chance(1, 2) { 'f' } else { 'b' }).collect();
 
+    let seq = if src_sel >= 12 && src_sel < 20 { String::new() } else { seq };
     format!(
-        "g{} abc={} C={} M={} L={} pad={:08x} pssm={} seq={} wrap={} rows={} pos={} idx={} it={}",
+        "g{} abc={} C={} M={} L={} pad={:08x} pssm={} seq={} wrap={} rows={} pos={} idx={} it={} src={}",
         id,
         abc,
         c,
@@ -1184,7 +1263,8 @@ fn gen_case(rng: &mut Rng, id: usize, tier: &str) -> String {
         ranges.join(","),
         join(&pos),
         join(&idx),
-        if itops.is_empty() { "-".to_string() } else { itops }
+        if itops.is_empty() { "-".to_string() } else { itops },
+        src
     )
 }
 
